@@ -100,16 +100,18 @@ class BaseFunctorWorker(BaseProcess, Generic[T, R]):
                 i, data_list = q_item
 
                 res = (i, [self(x) for x in data_list])
+
+                self.max_chunks_per_worker -= 1
+                if self.max_chunks_per_worker <= 0 and self.replace_queue is not None:
+                    # The replacement is requested before the last result is delivered. That way the request is always
+                    # in the replace queue sooner than the stop order that is sent when an imap call ends.
+                    self.replace_queue.put(self.wid)
+
                 try:
                     with self.results_queue_lock:
                         self.results_queue.put(res, block=False)
                 except queue.Full:
                     self.results_queue.put(res)
-
-                self.max_chunks_per_worker -= 1
-            else:
-                if self.replace_queue is not None:
-                    self.replace_queue.put(self.wid)
 
         finally:
             self.end()
@@ -486,7 +488,9 @@ class FactoryFunctorPool(FunctorPool):
         workers = [workers_factory.create() for _ in range(workers)]
 
         self._workers_factory = workers_factory
-        self._replace_queue = context.Queue()
+        # SimpleQueue has synchronous put (no feeder thread), so the replace requests and the stop orders are read
+        # in the order in which they were sent
+        self._replace_queue = context.SimpleQueue()
 
         super().__init__(workers, context, work_queue_maxsize, results_queue_maxsize, verbose, join_timeout)
 
